@@ -14,6 +14,7 @@ import inspect
 import itertools
 from fractions import Fraction
 
+import os
 import numpy as np
 
 ID = "C15"
@@ -606,6 +607,36 @@ def case_alias(ctx, case):
         o[...] = np.array(case["origin"], dtype=np.float64) / Q
         r[...] = np.array(case["rate"], dtype=np.float64) / Q
         md.clear(); md["k"] = [1, 2, 3]
+    # the same for a memory-mapped source (Density.to_memmap / from_file(use_memmap=True)): the copy is an ordinary array
+    if raw.size:
+        dm = Density(raw.copy(), origin=o.copy(), sampling_rate=r.copy(), metadata={"k": [1, 2, 3]})
+        fname = None
+        try:
+            dm.to_memmap()
+            fname = getattr(dm.data, "filename", None)
+            cm = dm.copy()
+            shm_ = _shares(cm, dm)
+            inpm = dict(inp, source="memmap")
+            ctx.spec("copy: shares no buffer with its source", inpm, not any(shm_), shm_, key="copy:alias")
+            ctx.spec("copy: equal content", inpm, _state(cm) == _state(dm), key="copy:content")
+            before_m = _state(dm)
+            try:
+                cm.data.reshape(-1)[...] = 77
+                wrote = True
+            except Exception:  # noqa  (a read-only view of the source's file is not an independent copy)
+                wrote = False
+            ctx.spec("copy: writing through the copy leaves the source unchanged", inpm, wrote and _state(dm) == before_m, key="copy:independent")
+            ctx.count("alias:memmap-source")
+        finally:
+            if fname and os.path.exists(str(fname)):
+                try:
+                    del dm, cm
+                except Exception:  # noqa
+                    pass
+                try:
+                    os.remove(str(fname))
+                except OSError:
+                    pass
     # adjust_box in place: fresh data/origin, same rate/metadata objects
     e = d.copy()
     class _Old:
